@@ -65,6 +65,29 @@ Definition chk_p (T : tables) (e : str) (x : option str) : bool :=
   | _, _, _ => false
   end.
 
+(* T (auxiliary stage line): the tokens of scan() as the driver prints them - role letter and value; None = error *)
+Inductive role := RO | RD | RR | RL | RE.
+Definition role_eqb (a b : role) : bool :=
+  match a, b with RO, RO | RD, RD | RR, RR | RL, RL | RE, RE => true | _, _ => false end.
+Definition op_text (o : op) : str :=
+  match o with
+  | OWith => s2l "WITH" | OAnd => s2l "AND" | OOr => s2l "OR" | OLp => s2l "(" | ORp => s2l ")" | OColon => s2l ":" | OPlus => s2l "+"
+  end.
+Definition tok_view (t : tok) : role * str :=
+  match t with TOp o => (RO, op_text o) | TDoc x => (RD, x) | TRef x => (RR, x) | TLic x => (RL, x) | TExc x => (RE, x) end.
+Fixpoint views_eqb (a b : list (role * str)) : bool :=
+  match a, b with
+  | [], [] => true
+  | (r, x) :: a', (r', y) :: b' => if role_eqb r r' then if str_eqb x y then views_eqb a' b' else false else false
+  | _, _ => false
+  end.
+Definition chk_t (T : tables) (e : str) (x : option (list (role * str))) : bool :=
+  match scan T e, x with
+  | Ok ts, Some v => views_eqb (map tok_view ts) v
+  | Err _, None => true
+  | _, _ => false
+  end.
+
 (* indices of the cases that do not evaluate to true *)
 Fixpoint failing (i : nat) (l : list bool) : list nat :=
   match l with [] => [] | b :: r => if b then failing (S i) r else i :: failing (S i) r end.
